@@ -450,12 +450,48 @@ class Model:
                 return k
         return None
 
+    def body_mutated(self, k):
+        """Names of class `k` that its body changes after binding them (tokenClasses[i] = X, table.update(...), x += ...)."""
+        if not hasattr(k, '_body_mutated'):
+            out = set()
+
+            def all_stmts(body):
+                for st in body:
+                    if isinstance(st, (ast.FunctionDef, ast.AsyncFunctionDef, ast.ClassDef)):
+                        continue
+                    yield st
+                    for f in ('body', 'orelse', 'finalbody'):
+                        sub = getattr(st, f, None)
+                        if isinstance(sub, list) and sub and isinstance(sub[0], ast.stmt):
+                            yield from all_stmts(sub)
+                    for h in getattr(st, 'handlers', []) or []:
+                        yield from all_stmts(h.body)
+            for st in all_stmts(k.node.body):
+                if isinstance(st, (ast.FunctionDef, ast.AsyncFunctionDef, ast.ClassDef)):
+                    continue
+                for t in (st.targets if isinstance(st, ast.Assign) else [st.target] if isinstance(st, (ast.AugAssign, ast.AnnAssign)) else []):
+                    if isinstance(t, ast.Subscript) and isinstance(t.value, ast.Name):
+                        out.add(t.value.id)
+                    if isinstance(st, ast.AugAssign) and isinstance(t, ast.Name):
+                        out.add(t.id)
+                if isinstance(st, ast.Expr) and isinstance(st.value, ast.Call) and isinstance(st.value.func, ast.Attribute) \
+                   and isinstance(st.value.func.value, ast.Name):
+                    out.add(st.value.func.value.id)
+                if isinstance(st, ast.Delete):
+                    for t in st.targets:
+                        if isinstance(t, ast.Subscript) and isinstance(t.value, ast.Name):
+                            out.add(t.value.id)
+            k._body_mutated = out
+        return k._body_mutated
+
     def class_const(self, c, name, default=UNKNOWN):
         """Folded value of class-level attribute `name` resolved through the MRO."""
         for k in self.mro(c):
             if isinstance(k, External):
                 continue
             if name in k.assigns:
+                if name in self.body_mutated(k):
+                    return Unknown('%s is changed in the class body of %s after it is bound' % (name, k.fullname))
                 return self.eval_const(k, k.assigns[name][-1])
             if name in k.methods or name in k.properties:
                 return Unknown('%s is a method/property on %s' % (name, k.fullname))
